@@ -22,7 +22,8 @@ func BlockMutations(height int64) []string {
 	}
 	if height > 1 {
 		for _, c := range []string{"drop-one", "drop-two", "dup-entry", "foreign-height", "foreign-round", "nil-block-vote", "two-nil-block-votes",
-			"bad-signature", "wrong-index-field", "truncated", "extended", "all-nil", "blockid-other", "votes-other-block", "prevote-type", "empty"} {
+			"bad-signature", "wrong-index-field", "truncated", "extended", "all-nil", "blockid-other", "votes-other-block", "prevote-type", "empty",
+			"only-0", "only-1", "only-2", "only-3", "without-0", "without-1", "without-2", "without-3"} {
 			m = append(m, "commit-"+c, "commit-"+c+"+fix")
 		}
 	} else {
@@ -228,6 +229,18 @@ func (nt *Net) makeMutant(n *Node, e *Emitted, mut string) *altBlock {
 			v.Type = types.VoteTypePrevote
 			resign(i, v)
 		}
+	case "commit-only-0", "commit-only-1", "commit-only-2", "commit-only-3":
+		keep := int(mut[len(mut)-1] - '0')
+		for i := range commit.Precommits {
+			if i != keep {
+				commit.Precommits[i] = nil
+			}
+		}
+	case "commit-without-0", "commit-without-1", "commit-without-2", "commit-without-3":
+		drop := int(mut[len(mut)-1] - '0')
+		if drop < len(commit.Precommits) {
+			commit.Precommits[drop] = nil
+		}
 	case "commit-empty":
 		commit.Precommits = nil
 	default:
@@ -285,4 +298,25 @@ func (nt *Net) routeMutant(n *Node, e *Emitted, i int, r Rule) bool {
 	}
 	nt.Trace = append(nt.Trace, fmt.Sprintf("n%d proposes mutant %q at h%d r%d", n.Idx, r.Alt, e.Height, e.Round))
 	return true
+}
+
+// ProposerAt returns the index of the round-r proposer of height h in scenario sc
+// (by the monitor's own replica of the validator-set history).
+func ProposerAt(sc *Scenario, h, r int64) int {
+	nt := &Net{Sc: sc}
+	keys := Keys(len(sc.Powers))
+	for i, k := range keys {
+		nt.Vals = append(nt.Vals, &types.Validator{Address: k.PubKey().Address(), PubKey: k.PubKey(), VotingPower: sc.Powers[i], IsCA: true})
+	}
+	vs := nt.refValidators(h)
+	if r > 0 {
+		vs.IncrementAccum(r)
+	}
+	addr := vs.Proposer().Address
+	for i, v := range nt.Vals {
+		if string(v.Address) == string(addr) {
+			return i
+		}
+	}
+	return -1
 }
